@@ -1,7 +1,7 @@
 (* Property C04 — every swap conserves tokens and routes each fee to its destination.
    Statements only; proofs in Proofs/SwapProofs.v. *)
-From MD.Model Require Import Base Ownable Epoch PoolMath Types PoolManager.
-From MD.Proofs Require Import PoolMathProofs SwapProofs.
+From MD.Model Require Import Base Ownable Epoch PoolMath Types PoolManager FarmManager Chain.
+From MD.Proofs Require Import PoolMathProofs SwapProofs BankProofs TxBalances.
 
 (* Fee structure of every swap computation (both pool types): there is a gross output such that each fee is
    the configured share of it rounded DOWN, extra fees are floored one by one, and the receiver's amount is the
@@ -74,9 +74,27 @@ Theorem C04_route_messages : forall w sender funds ops mr receiver ms s' msgs,
              else [plain (MBankSend (addr_or_default w receiver sender) [(so_out lst, amount_of out)])]) ++ fee_msgs)%list.
 Proof. exact exec_ops_spec. Qed.
 
+(* THE WHOLE TRANSACTION, every bank balance: the sender pays the offer to the pool manager; out of the pool manager go
+   exactly the return (to the chosen receiver), the protocol fee (to the fee collector) and the burn fee (destroyed);
+   nobody else's balance changes in any denom; the amounts are those of the Simulation on the state before *)
+Theorem C04_swap_transaction_moves_exactly_these_balances : forall w sender funds ask bp ms r pid w',
+  run_tx w sender PM (WPm (PmSwap ask bp ms r pid)) funds = Ok w' ->
+  exists offer sc,
+    one_coin funds = Ok offer /\ query_simulation (w_pm w) offer ask pid = Ok sc /\
+    let recv := addr_or_default w r sender in
+    let fc := pm_fee_collector (pm_cfg (w_pm w)) in
+    forall a d,
+      bal (w_bank w') a d = bal (w_bank w) a d
+        - ind (String.eqb a sender) (camt funds d) + ind (String.eqb a PM) (camt funds d)
+        - ind (String.eqb a PM) (ind (String.eqb ask d) (sc_return sc + sc_protocol_fee sc + sc_burn_fee sc))
+        + ind (String.eqb a recv) (ind (String.eqb ask d) (sc_return sc))
+        + ind (String.eqb a fc) (ind (String.eqb ask d) (sc_protocol_fee sc)).
+Proof. exact swap_tx_balances. Qed.
+
 Print Assumptions C04_fees_are_floored_shares.
 Print Assumptions C04_fee_never_more_than_share.
 Print Assumptions C04_reserve_update.
 Print Assumptions C04_swap_messages.
 Print Assumptions C04_route_chain.
 Print Assumptions C04_route_messages.
+Print Assumptions C04_swap_transaction_moves_exactly_these_balances.
